@@ -372,6 +372,11 @@ impl Prop for C04 {
     fn floors(&self) -> Vec<(&'static str, f64)> {
         vec![("nested_path", 0.4), ("cyclic", 0.3), ("aliased", 0.2)]
     }
+    fn render(&self, _ctx: &mut Ctx, ch: &mut Choices) -> String {
+        let case = gen_case(ch);
+        let importers = 1 + ch.idx(3);
+        format!("[{importers} importer(s)]\n{}", case.a_src.replace(RO_DEF, "<read-only catalogue>\n"))
+    }
     fn run(&self, _ctx: &mut Ctx, ch: &mut Choices) -> CaseResult {
         let case = gen_case(ch);
         let importers = 1 + ch.idx(3);
